@@ -62,7 +62,7 @@ Section Narrow.
         | None => Some (false, seen1)
         end
       | Some (TPartial _ fields) => any_child seen1 (map snd fields)
-      (* hooks/fix_F56.patch: Callable => [parameter, result, receive]; Process => send ++ receive *)
+      (* since fix 2bb39f1 (F56): Callable => [parameter, result, receive]; Process => send ++ receive *)
       | Some (TCallable parameter result receive) =>
         if cfg_cc_callable cfg then any_child seen1 [parameter; result; receive] else Some (false, seen1)
       | Some (TProcess send receive) =>
